@@ -29,9 +29,10 @@ def run(ctx):
                     continue
                 if layout in ("flat", "frame1") and fam == "PCACD":
                     continue          # PCACD needs at least two features
-                ts.append(D.detector_pair(fam, p, items, layout, rng.randrange(10 ** 6)))
+                setref = tuple(sorted(rng.sample(range(2, len(items) - 2), 2))) if batch and rng.random() < 0.6 else ()
+                ts.append(D.detector_pair(fam, p, items, layout, rng.randrange(10 ** 6), setref))
     ctx.validate("Product", ts, "detectors: private copies vs caller overwrites everything it passed (11 layouts)", sabotage=P.sabotage,
-                 replay=lambda i: {"mode": "det", "fam": ts[i]["fam"], "params": ts[i]["params"], "items": ts[i]["items"], "layout": ts[i]["layout"], "seed": ts[i]["seed"]},
+                 replay=lambda i: {"mode": "det", "fam": ts[i]["fam"], "params": ts[i]["params"], "items": ts[i]["items"], "layout": ts[i]["layout"], "seed": ts[i]["seed"], "setref_at": ts[i]["setref_at"]},
                  nontrivial=lambda t: any(e["a"]["state"] == "drift" for e in t["ev"]))
     # MD3: frames with a label column, and a third call (give_oracle_label) that accumulates what it is handed over several calls
     tm = [D.md3_pair(rng.randrange(10 ** 6), mode, L, sens) for mode in ("garbage", "reuse") for L in (5, 8, None) for sens in (0.5, 1.0)
@@ -57,7 +58,7 @@ def replay(ctx, bundle):
     if r["mode"] == "md3":
         t = D.md3_pair(r["seed"], r["m"], r["L"], r["sens"])
     elif r["mode"] == "det":
-        t = D.detector_pair(r["fam"], r["params"], r["items"], r["layout"], r["seed"])
+        t = D.detector_pair(r["fam"], r["params"], r["items"], r["layout"], r["seed"], tuple(r.get("setref_at", ())))
     else:
         t = D.injector_pair(r["kind"], r["frame"], r["seed"])
     ctx.validate("Product", [t], "replay", replay=lambda i: r)
